@@ -23,12 +23,11 @@ def keys_read(fnode, var):
     """{key: [node]} for `var['key']` loads and `var.get('key', ..)` in fnode."""
     out = {}
     for n in q.walk(fnode):
-        if isinstance(n, ast.Subscript) and isinstance(n.ctx, ast.Load) and isinstance(strip_cast(n.value), ast.Name) and strip_cast(n.value).id == var:
+        if isinstance(n, ast.Subscript) and isinstance(n.ctx, ast.Load) and q.unparse(strip_cast(n.value)) == var:
             k = q.const_str(n.slice)
             if k is not None:
                 out.setdefault(k, []).append(n)
-        elif isinstance(n, ast.Call) and isinstance(n.func, ast.Attribute) and n.func.attr == 'get' and isinstance(strip_cast(n.func.value), ast.Name) \
-                and strip_cast(n.func.value).id == var and n.args:
+        elif isinstance(n, ast.Call) and isinstance(n.func, ast.Attribute) and n.func.attr == 'get' and q.unparse(strip_cast(n.func.value)) == var and n.args:
             k = q.const_str(n.args[0])
             if k is not None:
                 out.setdefault(k, []).append(n)
